@@ -150,6 +150,19 @@ func c19Cases() []c19Case {
 		}, Want: func(w *World) []c19Want {
 			return []c19Want{{s3event.EventObjectRemovedDeleteObjects, w.Key, -1, ""}}
 		}},
+		{Name: "CopyObject from an explicit source version", Req: func(w *World) *gw.Req {
+			src := w.Bucket + "/" + w.Key
+			if w.F.G.Opts.Versioning {
+				// two versions of the source; the copy names the older one
+				Must(w.F.Do(gw.Root, "PUT", "/"+w.Bucket, "versioning", nil, []byte("<VersioningConfiguration><Status>Enabled</Status></VersioningConfiguration>")), "enable versioning")
+				v1 := Must(w.F.Put(gw.Root, w.Bucket, w.Key, []byte("source version one")), "v1").Header.Get("x-amz-version-id")
+				Must(w.F.Put(gw.Root, w.Bucket, w.Key, []byte("source version two, longer")), "v2")
+				src += "?versionId=" + v1
+			}
+			return NewReq("PUT", gw.ObjPath(w.Bucket, "ev/copy-of-version"), "", H("x-amz-copy-source", src), nil)
+		}, Want: func(w *World) []c19Want {
+			return []c19Want{{s3event.EventObjectCreatedCopy, "ev/copy-of-version", -1, ""}}
+		}},
 		{Name: "PutObjectTagging", Req: func(w *World) *gw.Req {
 			return NewReq("PUT", gw.ObjPath(w.Bucket, w.Key), "tagging", nil, []byte("<Tagging><TagSet><Tag><Key>a</Key><Value>b</Value></Tag></TagSet></Tagging>"))
 		}, Want: func(w *World) []c19Want { return []c19Want{{s3event.EventObjectTaggingPut, w.Key, -1, ""}} }},
@@ -192,10 +205,10 @@ func C19(r *ck.Run) {
 		defer func() { sched.SyncGo = false }()
 		idx := 0
 		for _, cfg := range []gw.Opts{{}, {Versioning: true}} {
-			if cfg.Versioning && !r.Thorough() {
-				continue
-			}
-			for _, fl := range filters {
+			for fi, fl := range filters {
+				if cfg.Versioning && !r.Thorough() && fi != 0 {
+					continue // quick: the versioning configuration with the first filter only
+				}
 				sink := newEvSink()
 				sender, err := s3event.InitWebhookEventSender(sink.URL(), fl.F)
 				if err != nil {
@@ -212,6 +225,7 @@ func C19(r *ck.Run) {
 					w := NewWorld("c19", o)
 					sink.take()
 					req := c.Req(w)
+					sink.take() // notifications of the case's own preparation
 					cred := gw.Root
 					if req.Get("x-verif-caller") == "usr3" {
 						cred = cUsr3
@@ -236,7 +250,16 @@ func C19(r *ck.Run) {
 						ck.Fatal("case %q is meant to fail but got %s", c.Name, resp)
 					}
 					r.Outcome(fmt.Sprintf("want=%d got=%d", len(want), len(got)))
-					if a := c19Compare(want, got, w.Bucket); a != "" {
+					a := c19Compare(want, got, w.Bucket)
+					if vid := resp.Header.Get("x-amz-version-id"); a == "" && vid != "" && !strings.HasPrefix(c.Name, "DeleteObjects") {
+						// the record names the version the request created / removed, as the response does
+						for _, g := range got {
+							if g.S3.Object.VersionId == nil || *g.S3.Object.VersionId != vid {
+								a = "record-names-another-version-than-the-response"
+							}
+						}
+					}
+					if a != "" {
 						fclass := "filtered-out"
 						if len(want) > 0 {
 							fclass = "enabled"
